@@ -28,7 +28,7 @@ RULE = ('case = generated workflow with xtriggers x result sequences x clock '
 ASSUMPTIONS = ['wall_clock (synchronous) xtriggers are not judged here']
 MIN = {'c33.calls': 600, 'c33.repeat_calls': 150, 'c33.successes': 250,
        'c33.dependents_satisfied_obs': 300}
-NCASES = {'quick': 240, 'thorough': 3000}
+NCASES = {'quick': 800, 'thorough': 10000}
 
 
 def ncases(tier):
